@@ -286,9 +286,7 @@ class ClauseCtx:
 
     def lookup(self, name, old):
         e = self.eng
-        if name == 'result':
-            if self.result is None:
-                raise ClauseError('result not available here')
+        if name == 'result' and self.result is not None:
             return self.result
         if name in self.names:
             return self.names[name]
